@@ -30,7 +30,7 @@ def run(ctx):
         recs = IC.run_spec(ctx, "InterpScan2", cfg)
         IC.replay(ctx, recs, "scan2")
     # (i') longer texts over a small alphabet: '$' runs at the end of a line, interpolations at the start of the next
-    cfg = dict(lit=["nl", "x", "sp"], shapes=["call"], contexts=["text", "dqattr", "comment", "cdata"], maxparts=4, maxdol=2 if quick else 3, maxstack=0)
+    cfg = dict(lit=["nl", "x", "sp"], shapes=["call", "samecall"], contexts=["text", "dqattr", "comment", "cdata"], maxparts=4, maxdol=2 if quick else 3, maxstack=0)
     recs = IC.run_spec(ctx, "InterpScan3", cfg)
     IC.replay(ctx, recs, "scan3")
     # (ii) contexts x switch nestings
